@@ -5,7 +5,8 @@
 //!  * E (toy curves): every point of every toy curve x every scalar of F_r (plus raw limb slices at or
 //!    above the group order / with leading zero limbs) x every multiplication path: affine / projective
 //!    `mul_bigint`, `*`, `*=`, `mul_bits_be`, the curve-config `mul_affine` / `mul_projective`,
-//!    `sw_double_and_add_*`, windowed NAF for every window 2..=10 with fresh / reused / longer / shorter
+//!    `sw_double_and_add_*`, windowed NAF for every window 2..=10 (thorough: 2..=12; 11..=16 on one small curve; the
+//!    too-short-table refusal for every window up to 63) with fresh / reused / longer / shorter
 //!    tables, fixed-base batch multiplication for every (hint, scalar size) pair.  Reference: table of
 //!    multiples j*P built by repeated addition with the textbook affine law.
 //!  * E (toy GLV curves): y^2 = x^3 + b with prime order r = 1 (mod 3): all k for the decomposition, all
